@@ -336,11 +336,19 @@ def _return_abstractarray():
     return AbstractArray
 
 
+def _unpickle_array_annotation(dtype, array_type, dim_str, dtypes):
+    out = dtype[array_type, dim_str]
+    # An annotation built by nesting, e.g. `Shaped[Float32[Array, "a"], "b"]`, accepts only
+    # the dtypes common to both parts, which is fewer than `dtype.dtypes`.
+    out.dtypes = dtypes
+    return out
+
+
 def _pickle_array_annotation(x: type["AbstractArray"]):
     if x is AbstractArray:
         return _return_abstractarray, ()
     else:
-        return x.dtype.__getitem__, ((x.array_type, x.dim_str),)
+        return _unpickle_array_annotation, (x.dtype, x.array_type, x.dim_str, x.dtypes)
 
 
 copyreg.pickle(_MetaAbstractArray, _pickle_array_annotation)
